@@ -16,8 +16,12 @@ CONSTANTS
   MaxAnte = 2
   MaxBlocks = 4
   MaxSets = 1
+  MaxBounds = 0
   MaxLen = 0
+  Defects = {}
 INVARIANT MInv_Shape
+INVARIANT MInv_Ghost
 PROPERTY MStep_P
+PROPERTY MSeq_P
 VIEW View
 CHECK_DEADLOCK FALSE
